@@ -73,6 +73,8 @@ type Frame struct {
 	// root-only
 	contract *Contract
 	prefix   string
+	extraBinds map[string]TV
+	panicking  bool // frame of a deferred function running while the caller unwinds
 	loopInfos map[*ssa.BasicBlock]*loopInfo
 	back      map[[2]int]bool
 	loopSt    map[*ssa.BasicBlock]*loopState
@@ -140,7 +142,7 @@ func (e *Eval) site(callee string) string {
 
 func fieldComp(st types.Type, i int) string {
 	s := st.Underlying().(*types.Struct)
-	return "H." + sanitize(typeKey(st)) + "." + s.Field(i).Name()
+	return "H." + sanitize(typeKey(st)) + "." + fieldName(s, i)
 }
 
 func (e *Eval) declField(st types.Type, i int) string {
@@ -945,6 +947,8 @@ func (e *Eval) unwind(fr *Frame, st *State, cond string, idx int) {
 	if _, ok := st.m["$recovered"]; !ok {
 		st.m["$recovered"] = "false"
 	}
+	e.c.DeclComp("$didpanic", "Bool")
+	st.m["$didpanic"] = "true"
 	cond, st = e.runDefers(fr, st, cond, idx, true)
 	rec := e.c.Get(st, "$recovered")
 	delete(st.m, "$recovered")
